@@ -131,7 +131,3 @@ def run(ctx: core.Ctx) -> core.Report:
             rep.sample({"sequence": case["sequence"][:20], "ids": got[:20]})
     return rep
 
-
-def replay(ctx, data):
-    print(data)
-    return 0
